@@ -76,6 +76,7 @@ func poolChild(a Args) {
 	}
 	var wg sync.WaitGroup
 	var mu sync.Mutex
+	var progress int64
 	cuts := 0
 	stop := make(chan struct{})
 	if a.Mode == "cuts" {
@@ -244,6 +245,7 @@ func poolChild(a Args) {
 				ev := map[string]interface{}{"ev": "op", "port": "handler", "x": xJSON(cmd), "res": res, "l1": project(), "l2": []interface{}{},
 					"ms": time.Since(start).Milliseconds()}
 				lines = append(lines, ev)
+				atomic.AddInt64(&progress, 1)
 			}
 			mu.Lock()
 			for _, ln := range lines {
@@ -254,11 +256,22 @@ func poolChild(a Args) {
 	}
 	done := make(chan struct{})
 	go func() { wg.Wait(); close(done) }()
+	// a hang is the absence of progress, not a long run: no call of any caller returned for a minute
 	hung := false
-	select {
-	case <-done:
-	case <-time.After(120 * time.Second):
-		hung = true
+	last, lastAt := atomic.LoadInt64(&progress), time.Now()
+wait:
+	for {
+		select {
+		case <-done:
+			break wait
+		case <-time.After(time.Second):
+		}
+		if p := atomic.LoadInt64(&progress); p != last {
+			last, lastAt = p, time.Now()
+		} else if time.Since(lastAt) > 60*time.Second {
+			hung = true
+			break wait
+		}
 	}
 	close(stop)
 	st.Refuse(false)
